@@ -68,6 +68,9 @@ def spec_operations(spec: dict) -> list[dict]:
                 merged[(p.get("in"), p.get("name"))] = p
             for p in [deref(q) for q in op.get("parameters", [])]:
                 merged[(p.get("in"), p.get("name"))] = p
+            for var in re.findall(r"{([^}]+)}", path):
+                if ("path", var) not in merged:  # template variable without a declaration: the generator adds a string argument
+                    merged[("path", var)] = {"name": var, "in": "path", "required": True, "schema": {"type": "string"}, "x-implicit": True}
             out.append({"path": path, "method": m.upper(), "op": op, "params": list(merged.values()), "tags": op.get("tags") or []})
     return out
 
